@@ -4479,79 +4479,166 @@ let template =
     (XI (XO (XO (XI XH))))))) :: ((Npos (XO (XO (XO (XO (XO
     XH)))))) :: ((Npos (XI (XO (XO (XO (XO (XI XH))))))) :: ((Npos (XO (XO
     (XI (XI (XO (XI XH))))))) :: ((Npos (XO (XO (XI (XI (XO (XI
-    XH))))))) :: ((Npos (XO (XO (XO (XO (XO XH)))))) :: ((Npos (XI (XI (XO
-    (XO (XI (XI XH))))))) :: ((Npos (XI (XO (XI (XO (XO (XI
-    XH))))))) :: ((Npos (XO (XO (XI (XO (XI (XI XH))))))) :: ((Npos (XO (XO
-    (XI (XO (XI (XI XH))))))) :: ((Npos (XI (XO (XO (XI (XO (XI
+    XH))))))) :: ((Npos (XO (XO (XO (XO (XO XH)))))) :: ((Npos (XO (XI (XI
+    (XO (XO (XI XH))))))) :: ((Npos (XI (XO (XI (XO (XI (XI
     XH))))))) :: ((Npos (XO (XI (XI (XI (XO (XI XH))))))) :: ((Npos (XI (XI
-    (XI (XO (XO (XI XH))))))) :: ((Npos (XI (XI (XO (XO (XI (XI
-    XH))))))) :: ((Npos (XO (XO (XO (XO (XO XH)))))) :: ((Npos (XO (XO (XO
-    (XI (XO XH)))))) :: ((Npos (XO (XI (XO (XO (XO (XI XH))))))) :: ((Npos
-    (XI (XO (XO (XO (XO (XI XH))))))) :: ((Npos (XI (XI (XO (XO (XI (XI
-    XH))))))) :: ((Npos (XO (XO (XO (XI (XO (XI XH))))))) :: ((Npos (XI (XO
-    (XO (XI (XO XH)))))) :: ((Npos (XO (XI (XO XH)))) :: ((Npos (XO (XO (XO
-    (XO (XO XH)))))) :: ((Npos (XO (XO (XO (XO (XO XH)))))) :: ((Npos (XO (XO
-    (XO (XO (XO XH)))))) :: ((Npos (XO (XO (XO (XO (XO XH)))))) :: ((Npos (XO
-    (XO (XO (XO (XO XH)))))) :: ((Npos (XO (XO (XO (XO (XO XH)))))) :: ((Npos
-    (XO (XO (XO (XO (XO XH)))))) :: ((Npos (XO (XO (XO (XO (XO
-    XH)))))) :: ((Npos (XI (XI (XO (XO (XI (XI XH))))))) :: ((Npos (XO (XO
-    (XO (XI (XO (XI XH))))))) :: ((Npos (XI (XI (XI (XI (XO (XI
-    XH))))))) :: ((Npos (XO (XO (XO (XO (XI (XI XH))))))) :: ((Npos (XO (XO
-    (XI (XO (XI (XI XH))))))) :: ((Npos (XO (XO (XO (XO (XO
-    XH)))))) :: ((Npos (XI (XO (XI (XI (XO XH)))))) :: ((Npos (XO (XO (XO (XO
-    (XI (XI XH))))))) :: ((Npos (XO (XI (XO XH)))) :: ((Npos (XO (XI (XO
-    XH)))) :: ((Npos (XO (XO (XO (XO (XO XH)))))) :: ((Npos (XO (XO (XO (XO
-    (XO XH)))))) :: ((Npos (XO (XO (XO (XO (XO XH)))))) :: ((Npos (XO (XO (XO
-    (XO (XO XH)))))) :: ((Npos (XO (XO (XO (XO (XO XH)))))) :: ((Npos (XO (XO
-    (XO (XO (XO XH)))))) :: ((Npos (XO (XO (XO (XO (XO XH)))))) :: ((Npos (XO
-    (XO (XO (XO (XO XH)))))) :: ((Npos (XI (XI (XO (XO (XO XH)))))) :: ((Npos
-    (XO (XO (XO (XO (XO XH)))))) :: ((Npos (XI (XI (XO (XO (XI (XI
-    XH))))))) :: ((Npos (XO (XO (XI (XO (XI (XI XH))))))) :: ((Npos (XI (XI
+    (XO (XO (XO (XI XH))))))) :: ((Npos (XO (XO (XI (XO (XI (XI
+    XH))))))) :: ((Npos (XI (XO (XO (XI (XO (XI XH))))))) :: ((Npos (XI (XI
+    (XI (XI (XO (XI XH))))))) :: ((Npos (XO (XI (XI (XI (XO (XI
+    XH))))))) :: ((Npos (XI (XI (XO (XO (XI (XI XH))))))) :: ((Npos (XO (XO
+    (XO (XO (XO XH)))))) :: ((Npos (XO (XO (XO (XI (XO XH)))))) :: ((Npos (XO
+    (XI (XO (XO (XO (XI XH))))))) :: ((Npos (XI (XO (XI (XO (XO (XI
+    XH))))))) :: ((Npos (XO (XI (XI (XO (XO (XI XH))))))) :: ((Npos (XI (XI
     (XI (XI (XO (XI XH))))))) :: ((Npos (XO (XI (XO (XO (XI (XI
     XH))))))) :: ((Npos (XI (XO (XI (XO (XO (XI XH))))))) :: ((Npos (XO (XO
-    (XO (XO (XO XH)))))) :: ((Npos (XI (XO (XO (XO (XO (XI
-    XH))))))) :: ((Npos (XO (XO (XI (XI (XO (XI XH))))))) :: ((Npos (XO (XO
-    (XI (XI (XO (XI XH))))))) :: ((Npos (XO (XO (XO (XO (XO
+    (XO (XO (XO XH)))))) :: ((Npos (XO (XO (XI (XO (XI (XI
+    XH))))))) :: ((Npos (XO (XO (XO (XI (XO (XI XH))))))) :: ((Npos (XI (XO
+    (XI (XO (XO (XI XH))))))) :: ((Npos (XO (XO (XO (XO (XO
     XH)))))) :: ((Npos (XI (XO (XO (XO (XO (XI XH))))))) :: ((Npos (XO (XO
     (XI (XI (XO (XI XH))))))) :: ((Npos (XI (XO (XO (XI (XO (XI
     XH))))))) :: ((Npos (XI (XO (XO (XO (XO (XI XH))))))) :: ((Npos (XI (XI
     (XO (XO (XI (XI XH))))))) :: ((Npos (XI (XO (XI (XO (XO (XI
     XH))))))) :: ((Npos (XI (XI (XO (XO (XI (XI XH))))))) :: ((Npos (XO (XI
-    (XO XH)))) :: ((Npos (XO (XO (XO (XO (XO XH)))))) :: ((Npos (XO (XO (XO
-    (XO (XO XH)))))) :: ((Npos (XO (XO (XO (XO (XO XH)))))) :: ((Npos (XO (XO
-    (XO (XO (XO XH)))))) :: ((Npos (XO (XO (XO (XO (XO XH)))))) :: ((Npos (XO
-    (XO (XO (XO (XO XH)))))) :: ((Npos (XO (XO (XO (XO (XO XH)))))) :: ((Npos
-    (XO (XO (XO (XO (XO XH)))))) :: ((Npos (XI (XO (XO (XO (XO (XI
-    XH))))))) :: ((Npos (XO (XO (XI (XI (XO (XI XH))))))) :: ((Npos (XI (XO
-    (XO (XI (XO (XI XH))))))) :: ((Npos (XI (XO (XO (XO (XO (XI
-    XH))))))) :: ((Npos (XI (XI (XO (XO (XI (XI XH))))))) :: ((Npos (XO (XO
-    (XO (XO (XO XH)))))) :: ((Npos (XI (XO (XI (XI (XO XH)))))) :: ((Npos (XO
-    (XO (XO (XO (XI (XI XH))))))) :: ((Npos (XO (XI (XO XH)))) :: ((Npos (XO
-    (XI (XO XH)))) :: ((Npos (XO (XO (XO (XO (XO XH)))))) :: ((Npos (XO (XO
-    (XO (XO (XO XH)))))) :: ((Npos (XO (XO (XO (XO (XO XH)))))) :: ((Npos (XO
-    (XO (XO (XO (XO XH)))))) :: ((Npos (XO (XO (XO (XO (XO XH)))))) :: ((Npos
-    (XO (XO (XO (XO (XO XH)))))) :: ((Npos (XO (XO (XO (XO (XO
-    XH)))))) :: ((Npos (XO (XO (XO (XO (XO XH)))))) :: ((Npos (XI (XI (XO (XO
-    (XO XH)))))) :: ((Npos (XO (XO (XO (XO (XO XH)))))) :: ((Npos (XI (XI (XO
-    (XO (XI (XI XH))))))) :: ((Npos (XO (XO (XI (XO (XI (XI
-    XH))))))) :: ((Npos (XI (XI (XI (XI (XO (XI XH))))))) :: ((Npos (XO (XI
-    (XO (XO (XI (XI XH))))))) :: ((Npos (XI (XO (XI (XO (XO (XI
-    XH))))))) :: ((Npos (XO (XO (XO (XO (XO XH)))))) :: ((Npos (XI (XO (XO
-    (XO (XO (XI XH))))))) :: ((Npos (XO (XO (XI (XI (XO (XI
-    XH))))))) :: ((Npos (XO (XO (XI (XI (XO (XI XH))))))) :: ((Npos (XO (XO
-    (XO (XO (XO XH)))))) :: ((Npos (XO (XI (XI (XO (XO (XI
-    XH))))))) :: ((Npos (XI (XO (XI (XO (XI (XI XH))))))) :: ((Npos (XO (XI
-    (XI (XI (XO (XI XH))))))) :: ((Npos (XI (XI (XO (XO (XO (XI
-    XH))))))) :: ((Npos (XO (XO (XI (XO (XI (XI XH))))))) :: ((Npos (XI (XO
-    (XO (XI (XO (XI XH))))))) :: ((Npos (XI (XI (XI (XI (XO (XI
-    XH))))))) :: ((Npos (XO (XI (XI (XI (XO (XI XH))))))) :: ((Npos (XI (XI
-    (XO (XO (XI (XI XH))))))) :: ((Npos (XO (XI (XO XH)))) :: ((Npos (XO (XO
+    (XO (XI (XI XH)))))) :: ((Npos (XO (XO (XO (XO (XO XH)))))) :: ((Npos (XO
+    (XO (XI (XO (XI (XI XH))))))) :: ((Npos (XO (XO (XO (XI (XO (XI
+    XH))))))) :: ((Npos (XI (XO (XI (XO (XO (XI XH))))))) :: ((Npos (XO (XO
+    (XO (XO (XO XH)))))) :: ((Npos (XO (XI (XO (XO (XO (XI
+    XH))))))) :: ((Npos (XI (XI (XI (XI (XO (XI XH))))))) :: ((Npos (XO (XO
+    (XI (XO (XO (XI XH))))))) :: ((Npos (XI (XO (XO (XI (XO (XI
+    XH))))))) :: ((Npos (XI (XO (XI (XO (XO (XI XH))))))) :: ((Npos (XI (XI
+    (XO (XO (XI (XI XH))))))) :: ((Npos (XO (XO (XO (XO (XO
+    XH)))))) :: ((Npos (XI (XI (XI (XO (XI (XI XH))))))) :: ((Npos (XI (XO
+    (XI (XO (XO (XI XH))))))) :: ((Npos (XO (XI (XO (XO (XI (XI
+    XH))))))) :: ((Npos (XI (XO (XI (XO (XO (XI XH))))))) :: ((Npos (XO (XO
+    (XO (XO (XO XH)))))) :: ((Npos (XO (XO (XO (XO (XI (XI
+    XH))))))) :: ((Npos (XI (XO (XO (XO (XO (XI XH))))))) :: ((Npos (XO (XI
+    (XO (XO (XI (XI XH))))))) :: ((Npos (XI (XI (XO (XO (XI (XI
+    XH))))))) :: ((Npos (XI (XO (XI (XO (XO (XI XH))))))) :: ((Npos (XO (XO
+    (XI (XO (XO (XI XH))))))) :: ((Npos (XO (XI (XO XH)))) :: ((Npos (XO (XO
     (XO (XO (XO XH)))))) :: ((Npos (XO (XO (XO (XO (XO XH)))))) :: ((Npos (XO
     (XO (XO (XO (XO XH)))))) :: ((Npos (XO (XO (XO (XO (XO XH)))))) :: ((Npos
     (XO (XO (XO (XO (XO XH)))))) :: ((Npos (XO (XO (XO (XO (XO
     XH)))))) :: ((Npos (XO (XO (XO (XO (XO XH)))))) :: ((Npos (XO (XO (XO (XO
-    (XO XH)))))) :: ((Npos (XO (XO (XI (XO (XO (XI XH))))))) :: ((Npos (XI
+    (XO XH)))))) :: ((Npos (XI (XI (XO (XO (XO XH)))))) :: ((Npos (XO (XO (XO
+    (XO (XO XH)))))) :: ((Npos (XI (XO (XO (XO (XO (XI XH))))))) :: ((Npos
+    (XO (XO (XI (XI (XO (XI XH))))))) :: ((Npos (XO (XI (XO (XO (XI (XI
+    XH))))))) :: ((Npos (XI (XO (XI (XO (XO (XI XH))))))) :: ((Npos (XI (XO
+    (XO (XO (XO (XI XH))))))) :: ((Npos (XO (XO (XI (XO (XO (XI
+    XH))))))) :: ((Npos (XI (XO (XO (XI (XI (XI XH))))))) :: ((Npos (XO (XO
+    (XO (XO (XO XH)))))) :: ((Npos (XI (XO (XO (XO (XO (XI
+    XH))))))) :: ((Npos (XO (XI (XI (XI (XO (XI XH))))))) :: ((Npos (XO (XO
+    (XI (XO (XO (XI XH))))))) :: ((Npos (XO (XO (XO (XO (XO
+    XH)))))) :: ((Npos (XI (XO (XI (XI (XO (XI XH))))))) :: ((Npos (XI (XO
+    (XI (XO (XI (XI XH))))))) :: ((Npos (XI (XI (XO (XO (XI (XI
+    XH))))))) :: ((Npos (XO (XO (XI (XO (XI (XI XH))))))) :: ((Npos (XO (XO
+    (XO (XO (XO XH)))))) :: ((Npos (XO (XI (XI (XI (XO (XI
+    XH))))))) :: ((Npos (XI (XI (XI (XI (XO (XI XH))))))) :: ((Npos (XO (XO
+    (XI (XO (XI (XI XH))))))) :: ((Npos (XO (XO (XO (XO (XO
+    XH)))))) :: ((Npos (XO (XO (XO (XI (XO (XI XH))))))) :: ((Npos (XI (XO
+    (XO (XO (XO (XI XH))))))) :: ((Npos (XO (XI (XI (XO (XI (XI
+    XH))))))) :: ((Npos (XI (XO (XI (XO (XO (XI XH))))))) :: ((Npos (XO (XO
+    (XO (XO (XO XH)))))) :: ((Npos (XI (XO (XO (XO (XO (XI
+    XH))))))) :: ((Npos (XO (XO (XI (XI (XO (XI XH))))))) :: ((Npos (XI (XO
+    (XO (XI (XO (XI XH))))))) :: ((Npos (XI (XO (XO (XO (XO (XI
+    XH))))))) :: ((Npos (XI (XI (XO (XO (XI (XI XH))))))) :: ((Npos (XI (XO
+    (XI (XO (XO (XI XH))))))) :: ((Npos (XI (XI (XO (XO (XI (XI
+    XH))))))) :: ((Npos (XO (XO (XO (XO (XO XH)))))) :: ((Npos (XI (XO (XI
+    (XO (XO (XI XH))))))) :: ((Npos (XO (XO (XO (XI (XI (XI
+    XH))))))) :: ((Npos (XO (XO (XO (XO (XI (XI XH))))))) :: ((Npos (XI (XO
+    (XO (XO (XO (XI XH))))))) :: ((Npos (XO (XI (XI (XI (XO (XI
+    XH))))))) :: ((Npos (XO (XO (XI (XO (XO (XI XH))))))) :: ((Npos (XI (XO
+    (XI (XO (XO (XI XH))))))) :: ((Npos (XO (XO (XI (XO (XO (XI
+    XH))))))) :: ((Npos (XO (XO (XO (XO (XO XH)))))) :: ((Npos (XI (XO (XO
+    (XI (XO (XI XH))))))) :: ((Npos (XO (XI (XI (XI (XO (XI
+    XH))))))) :: ((Npos (XO (XO (XO (XO (XO XH)))))) :: ((Npos (XO (XO (XI
+    (XO (XI (XI XH))))))) :: ((Npos (XO (XO (XO (XI (XO (XI
+    XH))))))) :: ((Npos (XI (XO (XI (XO (XO (XI XH))))))) :: ((Npos (XI (XO
+    (XI (XI (XO (XI XH))))))) :: ((Npos (XO (XO (XO (XO (XO
+    XH)))))) :: ((Npos (XI (XI (XI (XI (XO (XI XH))))))) :: ((Npos (XO (XI
+    (XI (XI (XO (XI XH))))))) :: ((Npos (XI (XI (XO (XO (XO (XI
+    XH))))))) :: ((Npos (XI (XO (XI (XO (XO (XI XH))))))) :: ((Npos (XO (XO
+    (XO (XO (XO XH)))))) :: ((Npos (XI (XO (XI (XI (XO (XI
+    XH))))))) :: ((Npos (XI (XI (XI (XI (XO (XI XH))))))) :: ((Npos (XO (XI
+    (XO (XO (XI (XI XH))))))) :: ((Npos (XI (XO (XI (XO (XO (XI
+    XH))))))) :: ((Npos (XI (XI (XO (XI (XI XH)))))) :: ((Npos (XO (XO (XO
+    (XO (XO XH)))))) :: ((Npos (XI (XI (XI (XO (XI (XI XH))))))) :: ((Npos
+    (XI (XO (XO (XI (XO (XI XH))))))) :: ((Npos (XO (XO (XI (XO (XI (XI
+    XH))))))) :: ((Npos (XO (XO (XO (XI (XO (XI XH))))))) :: ((Npos (XO (XI
+    (XO XH)))) :: ((Npos (XO (XO (XO (XO (XO XH)))))) :: ((Npos (XO (XO (XO
+    (XO (XO XH)))))) :: ((Npos (XO (XO (XO (XO (XO XH)))))) :: ((Npos (XO (XO
+    (XO (XO (XO XH)))))) :: ((Npos (XO (XO (XO (XO (XO XH)))))) :: ((Npos (XO
+    (XO (XO (XO (XO XH)))))) :: ((Npos (XO (XO (XO (XO (XO XH)))))) :: ((Npos
+    (XO (XO (XO (XO (XO XH)))))) :: ((Npos (XI (XI (XO (XO (XO
+    XH)))))) :: ((Npos (XO (XO (XO (XO (XO XH)))))) :: ((Npos (XI (XO (XI (XO
+    (XO (XI XH))))))) :: ((Npos (XO (XO (XO (XI (XI (XI XH))))))) :: ((Npos
+    (XO (XO (XI (XO (XI (XI XH))))))) :: ((Npos (XI (XI (XI (XO (XO (XI
+    XH))))))) :: ((Npos (XO (XO (XI (XI (XO (XI XH))))))) :: ((Npos (XI (XI
+    (XI (XI (XO (XI XH))))))) :: ((Npos (XO (XI (XO (XO (XO (XI
+    XH))))))) :: ((Npos (XO (XO (XI (XI (XO XH)))))) :: ((Npos (XO (XO (XO
+    (XO (XO XH)))))) :: ((Npos (XI (XI (XI (XI (XO (XI XH))))))) :: ((Npos
+    (XO (XI (XO (XO (XI (XI XH))))))) :: ((Npos (XO (XO (XO (XO (XO
+    XH)))))) :: ((Npos (XI (XO (XO (XO (XO (XI XH))))))) :: ((Npos (XO (XO
+    (XO (XO (XO XH)))))) :: ((Npos (XO (XI (XO (XO (XO (XI
+    XH))))))) :: ((Npos (XI (XI (XI (XI (XO (XI XH))))))) :: ((Npos (XO (XO
+    (XI (XO (XO (XI XH))))))) :: ((Npos (XI (XO (XO (XI (XI (XI
+    XH))))))) :: ((Npos (XO (XO (XO (XO (XO XH)))))) :: ((Npos (XO (XO (XI
+    (XO (XI (XI XH))))))) :: ((Npos (XO (XO (XO (XI (XO (XI
+    XH))))))) :: ((Npos (XI (XO (XO (XO (XO (XI XH))))))) :: ((Npos (XO (XO
+    (XI (XO (XI (XI XH))))))) :: ((Npos (XO (XO (XO (XO (XO
+    XH)))))) :: ((Npos (XI (XO (XI (XO (XI (XI XH))))))) :: ((Npos (XI (XI
+    (XO (XO (XI (XI XH))))))) :: ((Npos (XI (XO (XI (XO (XO (XI
+    XH))))))) :: ((Npos (XI (XI (XO (XO (XI (XI XH))))))) :: ((Npos (XO (XO
+    (XO (XO (XO XH)))))) :: ((Npos (XI (XO (XO (XO (XO (XI
+    XH))))))) :: ((Npos (XO (XI (XI (XI (XO (XI XH))))))) :: ((Npos (XO (XO
+    (XO (XO (XO XH)))))) :: ((Npos (XI (XO (XI (XO (XO (XI
+    XH))))))) :: ((Npos (XO (XO (XO (XI (XI (XI XH))))))) :: ((Npos (XO (XO
+    (XI (XO (XI (XI XH))))))) :: ((Npos (XI (XO (XI (XO (XO (XI
+    XH))))))) :: ((Npos (XO (XI (XI (XI (XO (XI XH))))))) :: ((Npos (XO (XO
+    (XI (XO (XO (XI XH))))))) :: ((Npos (XI (XO (XI (XO (XO (XI
+    XH))))))) :: ((Npos (XO (XO (XI (XO (XO (XI XH))))))) :: ((Npos (XO (XO
+    (XO (XO (XO XH)))))) :: ((Npos (XO (XO (XO (XO (XI (XI
+    XH))))))) :: ((Npos (XI (XO (XO (XO (XO (XI XH))))))) :: ((Npos (XO (XO
+    (XI (XO (XI (XI XH))))))) :: ((Npos (XO (XO (XI (XO (XI (XI
+    XH))))))) :: ((Npos (XI (XO (XI (XO (XO (XI XH))))))) :: ((Npos (XO (XI
+    (XO (XO (XI (XI XH))))))) :: ((Npos (XO (XI (XI (XI (XO (XI
+    XH))))))) :: ((Npos (XO (XO (XO (XO (XO XH)))))) :: ((Npos (XI (XI (XO
+    (XO (XO (XI XH))))))) :: ((Npos (XI (XO (XO (XO (XO (XI
+    XH))))))) :: ((Npos (XO (XI (XI (XI (XO (XI XH))))))) :: ((Npos (XO (XI
+    (XI (XI (XO (XI XH))))))) :: ((Npos (XI (XI (XI (XI (XO (XI
+    XH))))))) :: ((Npos (XO (XO (XI (XO (XI (XI XH))))))) :: ((Npos (XO (XO
+    (XO (XO (XO XH)))))) :: ((Npos (XO (XI (XO (XO (XO (XI
+    XH))))))) :: ((Npos (XI (XO (XI (XO (XO (XI XH))))))) :: ((Npos (XO (XO
+    (XO (XO (XO XH)))))) :: ((Npos (XO (XO (XO (XO (XI (XI
+    XH))))))) :: ((Npos (XI (XO (XO (XO (XO (XI XH))))))) :: ((Npos (XO (XI
+    (XO (XO (XI (XI XH))))))) :: ((Npos (XI (XI (XO (XO (XI (XI
+    XH))))))) :: ((Npos (XI (XO (XI (XO (XO (XI XH))))))) :: ((Npos (XO (XO
+    (XI (XO (XO (XI XH))))))) :: ((Npos (XI (XO (XO (XI (XO
+    XH)))))) :: ((Npos (XO (XI (XO XH)))) :: ((Npos (XO (XO (XO (XO (XO
+    XH)))))) :: ((Npos (XO (XO (XO (XO (XO XH)))))) :: ((Npos (XO (XO (XO (XO
+    (XO XH)))))) :: ((Npos (XO (XO (XO (XO (XO XH)))))) :: ((Npos (XO (XO (XO
+    (XO (XO XH)))))) :: ((Npos (XO (XO (XO (XO (XO XH)))))) :: ((Npos (XO (XO
+    (XO (XO (XO XH)))))) :: ((Npos (XO (XO (XO (XO (XO XH)))))) :: ((Npos (XI
     (XO (XI (XO (XO (XI XH))))))) :: ((Npos (XI (XI (XO (XO (XO (XI
+    XH))))))) :: ((Npos (XO (XO (XO (XI (XO (XI XH))))))) :: ((Npos (XI (XI
+    (XI (XI (XO (XI XH))))))) :: ((Npos (XO (XO (XO (XO (XO
+    XH)))))) :: ((Npos (XO (XI (XO (XO (XO XH)))))) :: ((Npos (XI (XI (XO (XO
+    (XI (XI XH))))))) :: ((Npos (XO (XO (XO (XI (XO (XI XH))))))) :: ((Npos
+    (XI (XI (XI (XI (XO (XI XH))))))) :: ((Npos (XO (XO (XO (XO (XI (XI
+    XH))))))) :: ((Npos (XO (XO (XI (XO (XI (XI XH))))))) :: ((Npos (XO (XO
+    (XO (XO (XO XH)))))) :: ((Npos (XI (XO (XI (XI (XO XH)))))) :: ((Npos (XI
+    (XI (XO (XO (XI (XI XH))))))) :: ((Npos (XO (XO (XO (XO (XO
+    XH)))))) :: ((Npos (XI (XO (XI (XO (XO (XI XH))))))) :: ((Npos (XO (XO
+    (XO (XI (XI (XI XH))))))) :: ((Npos (XO (XO (XI (XO (XI (XI
+    XH))))))) :: ((Npos (XI (XI (XI (XO (XO (XI XH))))))) :: ((Npos (XO (XO
+    (XI (XI (XO (XI XH))))))) :: ((Npos (XI (XI (XI (XI (XO (XI
+    XH))))))) :: ((Npos (XO (XI (XO (XO (XO (XI XH))))))) :: ((Npos (XO (XI
+    (XO (XO (XO XH)))))) :: ((Npos (XO (XI (XO XH)))) :: ((Npos (XO (XO (XO
+    (XO (XO XH)))))) :: ((Npos (XO (XO (XO (XO (XO XH)))))) :: ((Npos (XO (XO
+    (XO (XO (XO XH)))))) :: ((Npos (XO (XO (XO (XO (XO XH)))))) :: ((Npos (XO
+    (XO (XO (XO (XO XH)))))) :: ((Npos (XO (XO (XO (XO (XO XH)))))) :: ((Npos
+    (XO (XO (XO (XO (XO XH)))))) :: ((Npos (XO (XO (XO (XO (XO
+    XH)))))) :: ((Npos (XO (XO (XI (XO (XO (XI XH))))))) :: ((Npos (XI (XO
+    (XI (XO (XO (XI XH))))))) :: ((Npos (XI (XI (XO (XO (XO (XI
     XH))))))) :: ((Npos (XO (XO (XI (XI (XO (XI XH))))))) :: ((Npos (XI (XO
     (XO (XO (XO (XI XH))))))) :: ((Npos (XO (XI (XO (XO (XI (XI
     XH))))))) :: ((Npos (XI (XO (XI (XO (XO (XI XH))))))) :: ((Npos (XO (XO
@@ -4570,69 +4657,129 @@ let template =
     (XO (XO (XI XH))))))) :: ((Npos (XO (XO (XI (XI (XO (XI
     XH))))))) :: ((Npos (XO (XO (XI (XI (XO (XI XH))))))) :: ((Npos (XO (XO
     (XO (XO (XO XH)))))) :: ((Npos (XI (XI (XO (XO (XI (XI
-    XH))))))) :: ((Npos (XO (XO (XO (XI (XO (XI XH))))))) :: ((Npos (XI (XO
-    (XI (XO (XO (XI XH))))))) :: ((Npos (XO (XO (XI (XI (XO (XI
-    XH))))))) :: ((Npos (XO (XO (XI (XI (XO (XI XH))))))) :: ((Npos (XO (XO
-    (XO (XO (XO XH)))))) :: ((Npos (XI (XO (XO (XO (XO (XI
-    XH))))))) :: ((Npos (XO (XI (XI (XI (XO (XI XH))))))) :: ((Npos (XO (XO
-    (XI (XO (XO (XI XH))))))) :: ((Npos (XO (XO (XO (XO (XO
-    XH)))))) :: ((Npos (XI (XO (XI (XO (XO (XI XH))))))) :: ((Npos (XO (XI
-    (XI (XI (XO (XI XH))))))) :: ((Npos (XO (XI (XI (XO (XI (XI
+    XH))))))) :: ((Npos (XI (XO (XI (XO (XO (XI XH))))))) :: ((Npos (XO (XO
+    (XI (XO (XI (XI XH))))))) :: ((Npos (XO (XO (XI (XO (XI (XI
     XH))))))) :: ((Npos (XI (XO (XO (XI (XO (XI XH))))))) :: ((Npos (XO (XI
-    (XO (XO (XI (XI XH))))))) :: ((Npos (XI (XI (XI (XI (XO (XI
-    XH))))))) :: ((Npos (XO (XI (XI (XI (XO (XI XH))))))) :: ((Npos (XI (XO
-    (XI (XI (XO (XI XH))))))) :: ((Npos (XI (XO (XI (XO (XO (XI
-    XH))))))) :: ((Npos (XO (XI (XI (XI (XO (XI XH))))))) :: ((Npos (XO (XO
-    (XI (XO (XI (XI XH))))))) :: ((Npos (XO (XO (XO (XO (XO
-    XH)))))) :: ((Npos (XO (XI (XI (XO (XI (XI XH))))))) :: ((Npos (XI (XO
-    (XO (XO (XO (XI XH))))))) :: ((Npos (XO (XI (XO (XO (XI (XI
-    XH))))))) :: ((Npos (XI (XO (XO (XI (XO (XI XH))))))) :: ((Npos (XI (XO
-    (XO (XO (XO (XI XH))))))) :: ((Npos (XO (XI (XO (XO (XO (XI
-    XH))))))) :: ((Npos (XO (XO (XI (XI (XO (XI XH))))))) :: ((Npos (XI (XO
-    (XI (XO (XO (XI XH))))))) :: ((Npos (XI (XI (XO (XO (XI (XI
-    XH))))))) :: ((Npos (XO (XI (XO XH)))) :: ((Npos (XO (XO (XO (XO (XO
+    (XI (XI (XO (XI XH))))))) :: ((Npos (XI (XI (XI (XO (XO (XI
+    XH))))))) :: ((Npos (XI (XI (XO (XO (XI (XI XH))))))) :: ((Npos (XO (XO
+    (XO (XO (XO XH)))))) :: ((Npos (XO (XO (XO (XI (XO XH)))))) :: ((Npos (XO
+    (XI (XO (XO (XO (XI XH))))))) :: ((Npos (XI (XO (XO (XO (XO (XI
+    XH))))))) :: ((Npos (XI (XI (XO (XO (XI (XI XH))))))) :: ((Npos (XO (XO
+    (XO (XI (XO (XI XH))))))) :: ((Npos (XI (XO (XO (XI (XO
+    XH)))))) :: ((Npos (XO (XI (XO XH)))) :: ((Npos (XO (XO (XO (XO (XO
     XH)))))) :: ((Npos (XO (XO (XO (XO (XO XH)))))) :: ((Npos (XO (XO (XO (XO
     (XO XH)))))) :: ((Npos (XO (XO (XO (XO (XO XH)))))) :: ((Npos (XO (XO (XO
     (XO (XO XH)))))) :: ((Npos (XO (XO (XO (XO (XO XH)))))) :: ((Npos (XO (XO
     (XO (XO (XO XH)))))) :: ((Npos (XO (XO (XO (XO (XO XH)))))) :: ((Npos (XI
-    (XO (XI (XO (XO (XI XH))))))) :: ((Npos (XO (XI (XI (XO (XI (XI
-    XH))))))) :: ((Npos (XI (XO (XO (XO (XO (XI XH))))))) :: ((Npos (XO (XO
-    (XI (XI (XO (XI XH))))))) :: ((Npos (XO (XO (XO (XO (XO
-    XH)))))) :: ((Npos (XO (XI (XO (XO (XO XH)))))) :: ((Npos (XO (XO (XI (XO
-    (XO XH)))))) :: ((Npos (XI (XI (XI (XI (XI (XO XH))))))) :: ((Npos (XI
-    (XI (XI (XI (XI (XO XH))))))) :: ((Npos (XI (XI (XO (XO (XI (XO
-    XH))))))) :: ((Npos (XI (XI (XO (XO (XO (XO XH))))))) :: ((Npos (XO (XI
-    (XO (XO (XI (XO XH))))))) :: ((Npos (XI (XO (XI (XO (XI (XO
-    XH))))))) :: ((Npos (XO (XO (XI (XO (XI (XO XH))))))) :: ((Npos (XI (XI
-    (XI (XI (XI (XO XH))))))) :: ((Npos (XO (XO (XI (XO (XO (XO
-    XH))))))) :: ((Npos (XI (XO (XI (XO (XO (XO XH))))))) :: ((Npos (XI (XI
-    (XO (XO (XO (XO XH))))))) :: ((Npos (XO (XO (XI (XI (XO (XO
-    XH))))))) :: ((Npos (XI (XO (XO (XO (XO (XO XH))))))) :: ((Npos (XO (XI
-    (XO (XO (XI (XO XH))))))) :: ((Npos (XI (XO (XI (XO (XO (XO
-    XH))))))) :: ((Npos (XI (XI (XI (XI (XI (XO XH))))))) :: ((Npos (XO (XI
-    (XI (XO (XI (XO XH))))))) :: ((Npos (XI (XO (XO (XO (XO (XO
-    XH))))))) :: ((Npos (XO (XI (XO (XO (XI (XO XH))))))) :: ((Npos (XI (XI
-    (XO (XO (XI (XO XH))))))) :: ((Npos (XI (XI (XI (XI (XI (XO
-    XH))))))) :: ((Npos (XI (XI (XO (XO (XO (XO XH))))))) :: ((Npos (XI (XO
-    (XI (XI (XO (XO XH))))))) :: ((Npos (XO (XO (XI (XO (XO (XO
-    XH))))))) :: ((Npos (XO (XI (XO (XO (XO XH)))))) :: ((Npos (XO (XO (XO
-    (XO (XO XH)))))) :: ((Npos (XO (XO (XI (XI (XI (XI XH))))))) :: ((Npos
-    (XO (XO (XO (XO (XO XH)))))) :: ((Npos (XO (XO (XI (XI (XI (XO
-    XH))))))) :: ((Npos (XO (XI (XO XH)))) :: ((Npos (XO (XO (XO (XO (XO
-    XH)))))) :: ((Npos (XO (XO (XO (XO (XO XH)))))) :: ((Npos (XO (XO (XO (XO
+    (XI (XO (XO (XI (XI XH))))))) :: ((Npos (XO (XO (XO (XI (XO (XI
+    XH))))))) :: ((Npos (XI (XI (XI (XI (XO (XI XH))))))) :: ((Npos (XO (XO
+    (XO (XO (XI (XI XH))))))) :: ((Npos (XO (XO (XI (XO (XI (XI
+    XH))))))) :: ((Npos (XO (XO (XO (XO (XO XH)))))) :: ((Npos (XI (XO (XI
+    (XI (XO XH)))))) :: ((Npos (XO (XO (XO (XO (XI (XI XH))))))) :: ((Npos
+    (XO (XI (XO XH)))) :: ((Npos (XO (XI (XO XH)))) :: ((Npos (XO (XO (XO (XO
     (XO XH)))))) :: ((Npos (XO (XO (XO (XO (XO XH)))))) :: ((Npos (XO (XO (XO
     (XO (XO XH)))))) :: ((Npos (XO (XO (XO (XO (XO XH)))))) :: ((Npos (XO (XO
     (XO (XO (XO XH)))))) :: ((Npos (XO (XO (XO (XO (XO XH)))))) :: ((Npos (XO
     (XO (XO (XO (XO XH)))))) :: ((Npos (XO (XO (XO (XO (XO XH)))))) :: ((Npos
+    (XI (XI (XO (XO (XO XH)))))) :: ((Npos (XO (XO (XO (XO (XO
+    XH)))))) :: ((Npos (XI (XI (XO (XO (XI (XI XH))))))) :: ((Npos (XO (XO
+    (XI (XO (XI (XI XH))))))) :: ((Npos (XI (XI (XI (XI (XO (XI
+    XH))))))) :: ((Npos (XO (XI (XO (XO (XI (XI XH))))))) :: ((Npos (XI (XO
+    (XI (XO (XO (XI XH))))))) :: ((Npos (XO (XO (XO (XO (XO
+    XH)))))) :: ((Npos (XI (XO (XO (XO (XO (XI XH))))))) :: ((Npos (XO (XO
+    (XI (XI (XO (XI XH))))))) :: ((Npos (XO (XO (XI (XI (XO (XI
+    XH))))))) :: ((Npos (XO (XO (XO (XO (XO XH)))))) :: ((Npos (XI (XO (XO
+    (XO (XO (XI XH))))))) :: ((Npos (XO (XO (XI (XI (XO (XI
+    XH))))))) :: ((Npos (XI (XO (XO (XI (XO (XI XH))))))) :: ((Npos (XI (XO
+    (XO (XO (XO (XI XH))))))) :: ((Npos (XI (XI (XO (XO (XI (XI
+    XH))))))) :: ((Npos (XI (XO (XI (XO (XO (XI XH))))))) :: ((Npos (XI (XI
+    (XO (XO (XI (XI XH))))))) :: ((Npos (XO (XI (XO XH)))) :: ((Npos (XO (XO
+    (XO (XO (XO XH)))))) :: ((Npos (XO (XO (XO (XO (XO XH)))))) :: ((Npos (XO
+    (XO (XO (XO (XO XH)))))) :: ((Npos (XO (XO (XO (XO (XO XH)))))) :: ((Npos
     (XO (XO (XO (XO (XO XH)))))) :: ((Npos (XO (XO (XO (XO (XO
-    XH)))))) :: ((Npos (XI (XI (XI (XO (XO (XI XH))))))) :: ((Npos (XO (XI
-    (XO (XO (XI (XI XH))))))) :: ((Npos (XI (XO (XI (XO (XO (XI
-    XH))))))) :: ((Npos (XO (XO (XO (XO (XI (XI XH))))))) :: ((Npos (XO (XO
-    (XO (XO (XO XH)))))) :: ((Npos (XI (XO (XI (XI (XO XH)))))) :: ((Npos (XI
-    (XO (XI (XO (XO (XO XH))))))) :: ((Npos (XO (XI (XI (XO (XI (XI
+    XH)))))) :: ((Npos (XO (XO (XO (XO (XO XH)))))) :: ((Npos (XO (XO (XO (XO
+    (XO XH)))))) :: ((Npos (XI (XO (XO (XO (XO (XI XH))))))) :: ((Npos (XO
+    (XO (XI (XI (XO (XI XH))))))) :: ((Npos (XI (XO (XO (XI (XO (XI
+    XH))))))) :: ((Npos (XI (XO (XO (XO (XO (XI XH))))))) :: ((Npos (XI (XI
+    (XO (XO (XI (XI XH))))))) :: ((Npos (XO (XO (XO (XO (XO
+    XH)))))) :: ((Npos (XI (XO (XI (XI (XO XH)))))) :: ((Npos (XO (XO (XO (XO
+    (XI (XI XH))))))) :: ((Npos (XO (XI (XO XH)))) :: ((Npos (XO (XI (XO
+    XH)))) :: ((Npos (XO (XO (XO (XO (XO XH)))))) :: ((Npos (XO (XO (XO (XO
+    (XO XH)))))) :: ((Npos (XO (XO (XO (XO (XO XH)))))) :: ((Npos (XO (XO (XO
+    (XO (XO XH)))))) :: ((Npos (XO (XO (XO (XO (XO XH)))))) :: ((Npos (XO (XO
+    (XO (XO (XO XH)))))) :: ((Npos (XO (XO (XO (XO (XO XH)))))) :: ((Npos (XO
+    (XO (XO (XO (XO XH)))))) :: ((Npos (XI (XI (XO (XO (XO XH)))))) :: ((Npos
+    (XO (XO (XO (XO (XO XH)))))) :: ((Npos (XI (XI (XO (XO (XI (XI
+    XH))))))) :: ((Npos (XO (XO (XI (XO (XI (XI XH))))))) :: ((Npos (XI (XI
+    (XI (XI (XO (XI XH))))))) :: ((Npos (XO (XI (XO (XO (XI (XI
+    XH))))))) :: ((Npos (XI (XO (XI (XO (XO (XI XH))))))) :: ((Npos (XO (XO
+    (XO (XO (XO XH)))))) :: ((Npos (XI (XO (XO (XO (XO (XI
+    XH))))))) :: ((Npos (XO (XO (XI (XI (XO (XI XH))))))) :: ((Npos (XO (XO
+    (XI (XI (XO (XI XH))))))) :: ((Npos (XO (XO (XO (XO (XO
+    XH)))))) :: ((Npos (XI (XI (XO (XO (XI (XI XH))))))) :: ((Npos (XO (XO
+    (XO (XI (XO (XI XH))))))) :: ((Npos (XI (XO (XI (XO (XO (XI
+    XH))))))) :: ((Npos (XO (XO (XI (XI (XO (XI XH))))))) :: ((Npos (XO (XO
+    (XI (XI (XO (XI XH))))))) :: ((Npos (XO (XO (XO (XO (XO
+    XH)))))) :: ((Npos (XI (XO (XO (XO (XO (XI XH))))))) :: ((Npos (XO (XI
+    (XI (XI (XO (XI XH))))))) :: ((Npos (XO (XO (XI (XO (XO (XI
+    XH))))))) :: ((Npos (XO (XO (XO (XO (XO XH)))))) :: ((Npos (XI (XO (XI
+    (XO (XO (XI XH))))))) :: ((Npos (XO (XI (XI (XI (XO (XI
+    XH))))))) :: ((Npos (XO (XI (XI (XO (XI (XI XH))))))) :: ((Npos (XI (XO
+    (XO (XI (XO (XI XH))))))) :: ((Npos (XO (XI (XO (XO (XI (XI
+    XH))))))) :: ((Npos (XI (XI (XI (XI (XO (XI XH))))))) :: ((Npos (XO (XI
+    (XI (XI (XO (XI XH))))))) :: ((Npos (XI (XO (XI (XI (XO (XI
+    XH))))))) :: ((Npos (XI (XO (XI (XO (XO (XI XH))))))) :: ((Npos (XO (XI
+    (XI (XI (XO (XI XH))))))) :: ((Npos (XO (XO (XI (XO (XI (XI
+    XH))))))) :: ((Npos (XO (XO (XO (XO (XO XH)))))) :: ((Npos (XO (XI (XI
+    (XO (XI (XI XH))))))) :: ((Npos (XI (XO (XO (XO (XO (XI
+    XH))))))) :: ((Npos (XO (XI (XO (XO (XI (XI XH))))))) :: ((Npos (XI (XO
+    (XO (XI (XO (XI XH))))))) :: ((Npos (XI (XO (XO (XO (XO (XI
+    XH))))))) :: ((Npos (XO (XI (XO (XO (XO (XI XH))))))) :: ((Npos (XO (XO
+    (XI (XI (XO (XI XH))))))) :: ((Npos (XI (XO (XI (XO (XO (XI
+    XH))))))) :: ((Npos (XI (XI (XO (XO (XI (XI XH))))))) :: ((Npos (XO (XI
+    (XO XH)))) :: ((Npos (XO (XO (XO (XO (XO XH)))))) :: ((Npos (XO (XO (XO
+    (XO (XO XH)))))) :: ((Npos (XO (XO (XO (XO (XO XH)))))) :: ((Npos (XO (XO
+    (XO (XO (XO XH)))))) :: ((Npos (XO (XO (XO (XO (XO XH)))))) :: ((Npos (XO
+    (XO (XO (XO (XO XH)))))) :: ((Npos (XO (XO (XO (XO (XO XH)))))) :: ((Npos
+    (XO (XO (XO (XO (XO XH)))))) :: ((Npos (XI (XO (XI (XO (XO (XI
+    XH))))))) :: ((Npos (XO (XI (XI (XO (XI (XI XH))))))) :: ((Npos (XI (XO
+    (XO (XO (XO (XI XH))))))) :: ((Npos (XO (XO (XI (XI (XO (XI
     XH))))))) :: ((Npos (XO (XO (XO (XO (XO XH)))))) :: ((Npos (XO (XI (XO
-    (XO (XO XH)))))) :: ((Npos (XO (XI (XI (XI (XI (XO XH))))))) :: ((Npos
-    (XO (XO (XI (XO (XO (XI XH))))))) :: ((Npos (XI (XO (XI (XO (XO (XI
+    (XO (XO XH)))))) :: ((Npos (XO (XO (XI (XO (XO XH)))))) :: ((Npos (XI (XI
+    (XI (XI (XI (XO XH))))))) :: ((Npos (XI (XI (XI (XI (XI (XO
+    XH))))))) :: ((Npos (XI (XI (XO (XO (XI (XO XH))))))) :: ((Npos (XI (XI
+    (XO (XO (XO (XO XH))))))) :: ((Npos (XO (XI (XO (XO (XI (XO
+    XH))))))) :: ((Npos (XI (XO (XI (XO (XI (XO XH))))))) :: ((Npos (XO (XO
+    (XI (XO (XI (XO XH))))))) :: ((Npos (XI (XI (XI (XI (XI (XO
+    XH))))))) :: ((Npos (XO (XO (XI (XO (XO (XO XH))))))) :: ((Npos (XI (XO
+    (XI (XO (XO (XO XH))))))) :: ((Npos (XI (XI (XO (XO (XO (XO
+    XH))))))) :: ((Npos (XO (XO (XI (XI (XO (XO XH))))))) :: ((Npos (XI (XO
+    (XO (XO (XO (XO XH))))))) :: ((Npos (XO (XI (XO (XO (XI (XO
+    XH))))))) :: ((Npos (XI (XO (XI (XO (XO (XO XH))))))) :: ((Npos (XI (XI
+    (XI (XI (XI (XO XH))))))) :: ((Npos (XO (XI (XI (XO (XI (XO
+    XH))))))) :: ((Npos (XI (XO (XO (XO (XO (XO XH))))))) :: ((Npos (XO (XI
+    (XO (XO (XI (XO XH))))))) :: ((Npos (XI (XI (XO (XO (XI (XO
+    XH))))))) :: ((Npos (XI (XI (XI (XI (XI (XO XH))))))) :: ((Npos (XI (XI
+    (XO (XO (XO (XO XH))))))) :: ((Npos (XI (XO (XI (XI (XO (XO
+    XH))))))) :: ((Npos (XO (XO (XI (XO (XO (XO XH))))))) :: ((Npos (XO (XI
+    (XO (XO (XO XH)))))) :: ((Npos (XO (XO (XO (XO (XO XH)))))) :: ((Npos (XO
+    (XO (XI (XI (XI (XI XH))))))) :: ((Npos (XO (XO (XO (XO (XO
+    XH)))))) :: ((Npos (XO (XO (XI (XI (XI (XO XH))))))) :: ((Npos (XO (XI
+    (XO XH)))) :: ((Npos (XO (XO (XO (XO (XO XH)))))) :: ((Npos (XO (XO (XO
+    (XO (XO XH)))))) :: ((Npos (XO (XO (XO (XO (XO XH)))))) :: ((Npos (XO (XO
+    (XO (XO (XO XH)))))) :: ((Npos (XO (XO (XO (XO (XO XH)))))) :: ((Npos (XO
+    (XO (XO (XO (XO XH)))))) :: ((Npos (XO (XO (XO (XO (XO XH)))))) :: ((Npos
+    (XO (XO (XO (XO (XO XH)))))) :: ((Npos (XO (XO (XO (XO (XO
+    XH)))))) :: ((Npos (XO (XO (XO (XO (XO XH)))))) :: ((Npos (XO (XO (XO (XO
+    (XO XH)))))) :: ((Npos (XO (XO (XO (XO (XO XH)))))) :: ((Npos (XI (XI (XI
+    (XO (XO (XI XH))))))) :: ((Npos (XO (XI (XO (XO (XI (XI
+    XH))))))) :: ((Npos (XI (XO (XI (XO (XO (XI XH))))))) :: ((Npos (XO (XO
+    (XO (XO (XI (XI XH))))))) :: ((Npos (XO (XO (XO (XO (XO
+    XH)))))) :: ((Npos (XI (XO (XI (XI (XO XH)))))) :: ((Npos (XI (XO (XI (XO
+    (XO (XO XH))))))) :: ((Npos (XO (XI (XI (XO (XI (XI XH))))))) :: ((Npos
+    (XO (XO (XO (XO (XO XH)))))) :: ((Npos (XO (XI (XO (XO (XO
+    XH)))))) :: ((Npos (XO (XI (XI (XI (XI (XO XH))))))) :: ((Npos (XO (XO
+    (XI (XO (XO (XI XH))))))) :: ((Npos (XI (XO (XI (XO (XO (XI
     XH))))))) :: ((Npos (XI (XI (XO (XO (XO (XI XH))))))) :: ((Npos (XO (XO
     (XI (XI (XO (XI XH))))))) :: ((Npos (XI (XO (XO (XO (XO (XI
     XH))))))) :: ((Npos (XO (XI (XO (XO (XI (XI XH))))))) :: ((Npos (XI (XO
@@ -5160,7 +5307,7 @@ let template =
     (XO (XI (XO (XI XH))))))) :: ((Npos (XI (XI (XI (XI (XO (XI
     XH))))))) :: ((Npos (XO (XI (XI (XI (XO (XI XH))))))) :: ((Npos (XI (XO
     (XI (XI (XI (XI XH))))))) :: ((Npos (XO (XI (XO
-    XH)))) :: []))))))))))))))))))))))))))))))))))))))))))))))))))))))))))))))))))))))))))))))))))))))))))))))))))))))))))))))))))))))))))))))))))))))))))))))))))))))))))))))))))))))))))))))))))))))))))))))))))))))))))))))))))))))))))))))))))))))))))))))))))))))))))))))))))))))))))))))))))))))))))))))))))))))))))))))))))))))))))))))))))))))))))))))))))))))))))))))))))))))))))))))))))))))))))))))))))))))))))))))))))))))))))))))))))))))))))))))))))))))))))))))))))))))))))))))))))))))))))))))))))))))))))))))))))))))))))))))))))))))))))))))))))))))))))))))))))))))))))))))))))))))))))))))))))))))))))))))))))))))))))))))))))))))))))))))))))))))))))))))))))))))))))))))))))))))))))))))))))))))))))))))))))))))))))))))))))))))))))))))))))))))))))))))))))))))))))))))))))))))))))))))))))))))))))))))))))))))))))))))))))))))))))))))))))))))))))))))))))))))))))))))))))))))))))))))))))))))))))))))))))))))))))))))))))))))))))))))))))))))))))))))))))))))))))))))))))))))))))))))))))))))))))))))))))))))))))))))))))))))))))))))))))))))))))))))))))))))))))))))))))))))))))))))))))))))))))))))))))))))))))))))))))))))))))))))))))))))))))))))))))))))))))))))))))))))))))))))))))))))))))))))))))))))))))))))))))))))))))))))))))))))))))))))))))))))))))))))))))))))))))))))))))))))))))))))))))))))))))))))))))))))))))))))))))))))))))))))))))))))))))))))))))))))))))))))))))))))))))))))))))))))))))))))))))))))))))))))))))))))))))))))))))))))))))))))))))))))))))))))))))))))))))))))))))))))))))))))))))))))))))))))))))))))))))))))))))))))))))))))))))))))))))))))))))))))))))))))))))))))))))))))))))))))))))))))))))))))))))))))))))))))))))))))))))))))))))))))))))))))))))))))))))))))))))))))))))))))))))))))))))))))))))))))))))))))))))))))))))))))))))))))))))))))))))))))))))))))))))))))))))))))))))))))))))))))))))))))))))))))))))))))))))))))))))))))))))))))))))))))))))))))))))))))))))))))))))))))))))))))))))))))))))))))))))))))))))))))))))))))))))))))))))))))))))))))))))))))))))))))))))))))))))))))))))))))))))))))))))))))))))))))))))))))))))))))))))))))))))))))))))))))))))))))))))))))))))))))))))))))))))))))))))))))))))))))))))))))))))))))))))))))))))))))))))))))))))))))))))))))))))))))))))))))))))))))))))))))))))))))))))))))))))))))))))))))))))))))))))))))))))))))))))))))))))))))))))))))))))))))))))))))))))))))))))))))))))))))))))))))))))))))))))))))))))))))))))))))))))))))))))))))))))
+    XH)))) :: []))))))))))))))))))))))))))))))))))))))))))))))))))))))))))))))))))))))))))))))))))))))))))))))))))))))))))))))))))))))))))))))))))))))))))))))))))))))))))))))))))))))))))))))))))))))))))))))))))))))))))))))))))))))))))))))))))))))))))))))))))))))))))))))))))))))))))))))))))))))))))))))))))))))))))))))))))))))))))))))))))))))))))))))))))))))))))))))))))))))))))))))))))))))))))))))))))))))))))))))))))))))))))))))))))))))))))))))))))))))))))))))))))))))))))))))))))))))))))))))))))))))))))))))))))))))))))))))))))))))))))))))))))))))))))))))))))))))))))))))))))))))))))))))))))))))))))))))))))))))))))))))))))))))))))))))))))))))))))))))))))))))))))))))))))))))))))))))))))))))))))))))))))))))))))))))))))))))))))))))))))))))))))))))))))))))))))))))))))))))))))))))))))))))))))))))))))))))))))))))))))))))))))))))))))))))))))))))))))))))))))))))))))))))))))))))))))))))))))))))))))))))))))))))))))))))))))))))))))))))))))))))))))))))))))))))))))))))))))))))))))))))))))))))))))))))))))))))))))))))))))))))))))))))))))))))))))))))))))))))))))))))))))))))))))))))))))))))))))))))))))))))))))))))))))))))))))))))))))))))))))))))))))))))))))))))))))))))))))))))))))))))))))))))))))))))))))))))))))))))))))))))))))))))))))))))))))))))))))))))))))))))))))))))))))))))))))))))))))))))))))))))))))))))))))))))))))))))))))))))))))))))))))))))))))))))))))))))))))))))))))))))))))))))))))))))))))))))))))))))))))))))))))))))))))))))))))))))))))))))))))))))))))))))))))))))))))))))))))))))))))))))))))))))))))))))))))))))))))))))))))))))))))))))))))))))))))))))))))))))))))))))))))))))))))))))))))))))))))))))))))))))))))))))))))))))))))))))))))))))))))))))))))))))))))))))))))))))))))))))))))))))))))))))))))))))))))))))))))))))))))))))))))))))))))))))))))))))))))))))))))))))))))))))))))))))))))))))))))))))))))))))))))))))))))))))))))))))))))))))))))))))))))))))))))))))))))))))))))))))))))))))))))))))))))))))))))))))))))))))))))))))))))))))))))))))))))))))))))))))))))))))))))))))))))))))))))))))))))))))))))))))))))))))))))))))))))))))))))))))))))))))))))))))))))))))))))))))))))))))))))))))))))))))))))))))))))))))))))))))))))))))))))))))))))))))))))))))))))))))))))))))))))))))))))))))))))))))))))))))))))))))))))))))))))))))))))))))))))))))))))))))))))))))))))))))))))))))))))))))))))))))))))))))))))))))))))))))))))))))))))))))))))))))))))))))))))))))))))))))))))))))))))))))))))))))))))))))))))))))))))))))))))))))))))))))))))))))))))))))))))))))))))))))))))))))))))))))))))))))))))))))))))))))))))))))))))))))))))))))))))))))))))))))))))))))))))))))))))))))))))))))))))))))))))))))))))))))))))))))))
 
 (** val ph_names : n list list **)
 
